@@ -146,6 +146,16 @@ Theorem C05_qmm_entry : forall (A B : Qmat) (i j : nat),
 Proof. exact qmm_entry. Qed.
 Print Assumptions C05_qmm_entry.
 
+(* what an accepted EXACT correspondence cell establishes, in terms of textbook sums: S T = T S = I entrywise and
+   offset = mean -- the hypotheses of the covariance theorems (with == on Q for = in a field) for the very instance that ran *)
+Theorem C05_exact_cell_sound : forall (mean : Qvec) (S : Qmat) (off : Qvec) (T : Qmat),
+  check_gauss_exact mean S off T = true ->
+  (forall i j, (nth j (nth i (textbook_mm S T) []) 0 == nth j (nth i (qid (length S)) []) 0)%Q) /\
+  (forall i j, (nth j (nth i (textbook_mm T S) []) 0 == nth j (nth i (qid (length S)) []) 0)%Q) /\
+  (forall j, (nth j off 0 == nth j (bmean (length S) mean) 0)%Q).
+Proof. exact exact_cell_sound. Qed.
+Print Assumptions C05_exact_cell_sound.
+
 (* ---------------- non-vacuity ---------------- *)
 Example C05_example :
   (gauss_branch false [[2; 1]; [0; 1]]%Q = BGeneral /\
